@@ -286,6 +286,9 @@ func (e *Exec) callFunction(fn *ssa.Function, args []Value, bind []Value) Value 
 	if fn.Blocks == nil {
 		panic(unsupported("no body for " + name))
 	}
+	if isTimeMethod(name) {
+		panic(unsupported("time.Time method without a model: " + name))
+	}
 	if fn.Synthetic != "" && strings.HasPrefix(fn.Synthetic, "package initializer") && e.depth > 0 {
 		// dependency initialisers are run lazily on first global access
 		return nil
